@@ -562,6 +562,9 @@ class Interp:
             elif t == "var":
                 if _flat(self.show(self.lookup(env, n["n"]))).strip():
                     raise ExpectedError("content next to fill tags")
+            elif t in ("block", "include"):
+                # C10: fill tags written inside a {% block %} of the template family / moved into an included partial
+                self.collect_fills(n["c"], env, between, acc, owner)
             else:
                 raise ValueError("unexpected node in fills body: %s" % t)
 
